@@ -80,7 +80,7 @@ impl Parser for Constant {
             tuple((
                 tag("const"),
                 preceded(blank, Type::parse),
-                preceded(blank, Ident::parse),
+                preceded(opt(blank), Ident::parse),
                 preceded(opt(blank), tag("=")),
                 preceded(opt(blank), ConstValue::parse),
                 opt(blank),
